@@ -288,7 +288,12 @@ fn corrupt(d: &mut Vec<u8>, kind: u8, at: u32, val: u8) {
         }
         2 => {
             // overwrite the n-th NUL-terminated field after the header with a boundary number
-            let vals: [&str; 14] = ["0", "-1", "1", "63", "64", "65", "24", "-2147483648", "2147483647", "4294967296", "", "x", "00064", "16"];
+            // (incl. digit strings beyond 32 and 64 bits, signs, blanks, leading zeros, non-ASCII digits)
+            let vals: [&str; 28] = [
+                "0", "-1", "1", "63", "64", "65", "24", "-2147483648", "2147483647", "4294967296", "", "x", "00064", "16",
+                "2147483648", "-2147483649", "9223372036854775807", "9223372036854775808", "-9223372036854775808", "-9223372036854775809",
+                "18446744073709551615", "18446744073709551616", "99999999999999999999999999999999999999999", "-", "+5", " 7", "7 ", "\u{ff11}\u{ff12}",
+            ];
             let rep = vals[val as usize % vals.len()];
             let body_start = 14.min(d.len());
             let fields: Vec<(usize, usize)> = {
